@@ -1,4 +1,5 @@
 from props.lie import *
+from props import apiops
 import math
 
 TOL = {'f64': 1e-9, 'f32': 1e-3}
@@ -9,10 +10,13 @@ RANGE_SLACK = {'f64': 1e-9, 'f32': 1e-3}
 
 def audit(lines):
     reqs = []
+    thin = apiops.Thin(6)
     for l in lines:
         p = l.prec + 'a'
         base = {'key': std_key(l, 'out' if l.op == 'log' else 'in'), 'line': l.raw, 'tol': TOL[l.prec], 'judge': simple_judge}
-        if l.op == 'exp':
+        if apiops.audit_c02(l, p, TOL, TOL_NEAR_PI, BAND, reqs, thin):
+            pass
+        elif l.op == 'exp':
             reqs.append((' '.join(['a_exp', l.grp, p] + l.ins + l.outs),
                          dict(base, what='matrix(exp(a)) != matrix exponential of hat(a)')))
         elif l.op == 'log':
@@ -51,13 +55,33 @@ def audit(lines):
                     # "uniformly in a ... arbitrarily small": relative to |a| itself, not to max(1, |a|)
                     out.append((errs[1], m['tol'], 'log(exp(a)) != a relative to |a| (tiny tangent)'))
                 return out
-            reqs.append((' '.join(['a_vec', l.grp, p] + l.ins + l.outs),
-                         dict(base, judge=judge_le, tol=TOL_NEAR_PI[l.prec] if near else TOL[l.prec], what='log(exp(a)) != a')))
+            c1s = set(apiops.c1_scale_indices(l.grp))
+            tolv = TOL_NEAR_PI[l.prec] if near else TOL[l.prec]
+            if not c1s:
+                reqs.append((' '.join(['a_vec', l.grp, p] + l.ins + l.outs), dict(base, judge=judge_le, tol=tolv, what='log(exp(a)) != a')))
+            else:
+                # The measure relative to |a| does not apply to the log-scale coordinate a0 of a C1 factor: C1 stores
+                # e^{a0}·(sin, cos), so a0 comes back to ABSOLUTE precision eps whatever the implementation (DESIGN 8.6).
+                # Those coordinates stay under the max(1,|a|) measure (first request); the |a|-relative measure is taken
+                # over the remaining coordinates only, numerator and scale (second request).
+                def judge_abs(errs, m):
+                    return [(errs[0], m['tol'], 'log(exp(a)) != a')] if not (errs[0] <= m['tol']) else []
+
+                def judge_rel(errs, m):
+                    if errs[0] <= m['tol'] and len(errs) > 1 and not (errs[1] <= m['tol']):
+                        return [(errs[1], m['tol'], 'log(exp(a)) != a relative to |a| (tiny tangent; C1 log-scale coordinates excluded)')]
+                    return []
+                reqs.append((' '.join(['a_vec', l.grp, p] + l.ins + l.outs), dict(base, judge=judge_abs, tol=tolv, what='log(exp(a)) != a')))
+                keep = [i for i in range(len(l.ins)) if i not in c1s]
+                if keep and len(l.outs) == len(l.ins):
+                    reqs.append((' '.join(['a_vec', l.grp, p] + [l.ins[i] for i in keep] + [l.outs[i] for i in keep]),
+                                 dict(base, judge=judge_rel, tol=tolv, what='log(exp(a)) != a')))
     return reqs
 
 
 def make():
-    return LieProp('C02', ['exp', 'log', 'logexp', 'cos_2', 'sin_3', 'cos_4', 'sin_5', 'cos_6', 'calc_S1', 'calc_S2', 'calc_S1inv'],
+    return LieProp('C02', ['exp', 'log', 'logexp', 'cos_2', 'sin_3', 'cos_4', 'sin_5', 'cos_6', 'calc_S1', 'calc_S2', 'calc_S1inv']
+                   + apiops.API_OPS['C02'],
                    ['SmoothProps/C02.lean'], audit, TOL,
                    rule='harness/lie.cpp: every group type of the catalogue x scalar x 9 rotation-angle strata (dense around the '
                         'eps2 switch: exact switch value and its floating-point neighbours, 1e-12..1e-3, generic, pi-1e-9..pi+1, up to 50) '
